@@ -29,7 +29,8 @@ LEVEL_TEXT = (
     "is flagged reversed) and the implied size is the selection length (parse_spec, full); for every chunk list the "
     "per-block slices tile the parsed slice (each selected position is assigned in exactly one block), "
     "block_index_size and n_preceding are the counts the value slices need, so the value pieces "
-    "[n_preceding, n_preceding+size) partition the value in selection order; the same for integer-array and "
+    "[n_preceding, n_preceding+size) partition the value in selection order, and over all blocks the assigned "
+    "(position, value element) pairs are exactly zip(selected positions, value) (setitem1d_den); the same tiling for integer-array and "
     "boolean indices; the reversed value slice reads the mirrored positions. The N-d assembly (broadcast axes, "
     "offsets between array and value axes) and the dask-mask `where` path are validated, not proved."
 )
